@@ -466,3 +466,11 @@ func ruleR20g(c *Ctx) {
 	}
 	c.floor("R20g", "string cuts in package data", 1, n)
 }
+
+// R20h: printing (and every other function of) package data does not depend on map iteration order.
+func ruleR20h(c *Ctx) {
+	c.buildSSA()
+	nf, nl := runMapOrder(c, "R20h", nil, func(rel string, fd *ast.FuncDecl) bool { return rel == "data" })
+	c.floor("R20h", "functions of package data examined", 25, nf)
+	c.floor("R20h", "ranges over maps classified", 1, nl)
+}
